@@ -165,6 +165,21 @@ fn stmts_variants(ss: &[Stmt], funcs: &[Func], out: &mut Vec<Vec<Stmt>>) {
                     out.push(v);
                 }
             }
+            Stmt::Call(fi, args) => {
+                for k in 0..args.len() {
+                    if let Arg::In(e) = &args[k] {
+                        let mut vs = Vec::new();
+                        expr_variants(e, funcs, &mut vs);
+                        for x in vs {
+                            let mut a = args.clone();
+                            a[k] = Arg::In(x);
+                            let mut v = ss.to_vec();
+                            v[i] = Stmt::Call(*fi, a);
+                            out.push(v);
+                        }
+                    }
+                }
+            }
             Stmt::If(c, t, f) => {
                 for body in [t, f] {
                     let mut v = ss.to_vec();
@@ -336,6 +351,14 @@ fn visit_stmts(ss: &mut [Stmt], fe: &mut dyn FnMut(&mut Expr), ft: &mut dyn FnMu
                 visit_stmts(t, fe, ft);
                 visit_stmts(f, fe, ft);
             }
+            Stmt::Call(_, args) => {
+                for a in args.iter_mut() {
+                    match a {
+                        Arg::In(e) => visit_expr(e, fe),
+                        Arg::Out(ts) => ts.iter_mut().for_each(|t| ft(t)),
+                    }
+                }
+            }
         }
     }
 }
@@ -364,6 +387,31 @@ pub fn visit_module(m: &mut Module, fe: &mut dyn FnMut(&mut Expr), fp: &mut dyn 
                 ins.iter_mut().for_each(|e| visit_expr(e, fe));
                 outs.iter_mut().for_each(|p| fp(p));
             }
+        }
+    }
+}
+
+fn stmt_calls_in(ss: &mut [Stmt], f: &mut dyn FnMut(&mut usize)) {
+    for s in ss {
+        match s {
+            Stmt::Assign(..) => {}
+            Stmt::If(_, t, e) => {
+                stmt_calls_in(t, f);
+                stmt_calls_in(e, f);
+            }
+            Stmt::Call(fi, _) => f(fi),
+        }
+    }
+}
+
+/// function indices of statement-style calls
+fn stmt_calls(m: &mut Module, f: &mut dyn FnMut(&mut usize)) {
+    for func in m.funcs.iter_mut() {
+        stmt_calls_in(&mut func.body, f);
+    }
+    for it in m.items.iter_mut() {
+        if let Item::Comb(ss) = it {
+            stmt_calls_in(ss, f);
         }
     }
 }
@@ -403,6 +451,7 @@ fn cleanup(d: &Design) -> Design {
             },
             &mut |_| {},
         );
+        stmt_calls(m, &mut |f| used[*f] = true);
         let map: Vec<usize> = {
             let mut k = 0;
             used.iter()
@@ -429,6 +478,7 @@ fn cleanup(d: &Design) -> Design {
             },
             &mut |_| {},
         );
+        stmt_calls(m, &mut |f| *f = map[*f]);
         // signals
         let mut sused = vec![false; m.sigs.len()];
         for (i, s) in m.sigs.iter().enumerate() {
